@@ -47,6 +47,7 @@ def run(ctx) -> None:
     _rp6(ctx, "C07", ("R1",), "R6")
     from sa.report import run_prerequisite
     run_prerequisite(ctx, "C03", ("R1", "R3"), "R5")
+    run_prerequisite(ctx, "C03", ("R6",), "R4", only=lambda key: "glob" in key)          # "files not named by the configuration are never touched": a glob matches what its text names
     from checks.c02 import part_language_band_rule, V2_PART_REF, V2_PART_REF_MAX
     part_language_band_rule(ctx, "R5", "v2patterns", V2_PART_REF, V2_PART_REF_MAX)          # text that is no version (non-ASCII digits, other shapes) is not a matched span
     shapes.memo_rule(ctx, "R5")          # "files not named ... / only configured spans": the pattern cache hands every file its own patterns
